@@ -210,7 +210,18 @@ pub fn rand_signal(rng: &mut Rng) -> Object {
         0 => Object::Engine(Engine { driver_demand: rng.byte(), actual_engine: rng.byte(), rpm: rng.next() as u16, state: EngineState::Request }),
         1 => Object::Motion(if rng.chance(1, 2) { Motion::StopAll } else { Motion::ResumeAll }),
         2 => Object::Rotator(Rotator::relative(rng.byte(), nalgebra::Rotation3::from_euler_angles(0.25, -0.5, 0.125))),
-        3 => Object::ModuleStatus(ModuleStatus::healthy(format!("laixer:hcu:0x27:0x{:X}", rng.byte()))),
+        // every health state a unit can be published with: healthy, and faulty with each error kind
+        3 => {
+            let name = format!("laixer:hcu:0x27:0x{:X}", rng.byte());
+            Object::ModuleStatus(match rng.below(6) {
+                0 => ModuleStatus::healthy(name),
+                1 => ModuleStatus::faulty(name, glonax::core::ModuleError::InvalidConfiguration),
+                2 => ModuleStatus::faulty(name, glonax::core::ModuleError::VersionMismatch),
+                3 => ModuleStatus::faulty(name, glonax::core::ModuleError::CommunicationTimeout),
+                4 => ModuleStatus::faulty(name, glonax::core::ModuleError::GenericCommunicationError),
+                _ => ModuleStatus::faulty(name, glonax::core::ModuleError::IOError),
+            })
+        }
         4 => Object::Control(Control::MachineHorn(rng.chance(1, 2))),
         _ => Object::Target(Target::from_point(1.0, 2.0, rng.range(0, 9) as f32)),
     }
